@@ -30,6 +30,15 @@ structure Live where
   guard : Option TCell := none
   wpos : Nat
   wfused : Bool
+  /-- answers of the inner `poll_flush` / `poll_close` of the writer's carrier -/
+  fscript : List FHint := []
+  cscript : List FHint := []
+  /-- the inner `poll_close` succeeded (write half closed: EOF for the reader once the wire is drained) -/
+  wclosed : Bool := false
+  /-- `close` returned `ok`: the adapter answers `closed` from now on -/
+  wdone : Bool := false
+  /-- `carrier close` -/
+  cclosed : Bool := false
 
 structure State where
   live : Option Live := none
@@ -158,6 +167,30 @@ def nats? : List String → Option (List Nat)
 def absorb (l : Live) (ws : WriteSock TCell) (wc : WCarrier TCell) : Live :=
   wc.out.foldl pushWire { l with ws := ws, wscript := wc.script }
 
+def fhints? : List String → Option (List FHint)
+  | [] => some []
+  | t :: ts =>
+    let h : Option FHint := if t = "p" then some .pend else if t = "x" then some .err else none
+    match h, fhints? ts with
+    | some h, some r => some (h :: r)
+    | _, _ => none
+
+/-- The writer's carrier for one call (`out` starts empty: what it accepts is moved to the wire by `absorb`). -/
+def wenv (l : Live) : WEnv TCell :=
+  { wc := { out := #[], script := l.wscript }, fscript := l.fscript, cscript := l.cscript, flushed := 0,
+    closed := l.wclosed }
+
+def absorbEnv (l : Live) (ws : WriteSock TCell) (e : WEnv TCell) : Live :=
+  absorb { l with ws := { ebuf := #[], st := .idle, nonce := 0 }, fscript := e.fscript, cscript := e.cscript,
+                  wclosed := e.closed } ws e.wc
+
+/-- Mirror of `Shared::missing` in the adapter. -/
+def missing (l : Live) (e : WEnv TCell) : String :=
+  (if l.nextP != l.wpos || !l.hdr.isEmpty then " short " ++ toString l.nextP ++ "/" ++ toString l.wpos else "")
+    ++ (if e.flushed != e.wc.out.size then " unflushed" else "")
+
+def wireEmpty (l : Live) : Bool := l.segs.all fun s => s.cells.size - s.head == 0
+
 def stepLive (l : Live) (ts : List String) : Live × String :=
   match ts with
   | ["write", n] =>
@@ -166,6 +199,7 @@ def stepLive (l : Live) (ts : List String) : Live × String :=
     | some n =>
       if n > 4194304 then (l, "bad-op")
       else if l.wfused then (l, "fused")
+      else if l.wdone then (l, "closed")
       else
         let (ws, wc, o) := pollWrite l.P (tw l.P) l.ws { out := #[], script := l.wscript } l.wpos n
         let l := absorb { l with ws := { ebuf := #[], st := .idle, nonce := 0 } } ws wc
@@ -176,13 +210,25 @@ def stepLive (l : Live) (ts : List String) : Live × String :=
         | .panic m => (l, "panic " ++ m)
   | ["flush"] =>
     if l.wfused then (l, "fused")
+    else if l.wdone then (l, "closed")
     else
-      let (ws, wc, o) := pollFlush l.ws { out := #[], script := l.wscript }
-      let l := absorb { l with ws := { ebuf := #[], st := .idle, nonce := 0 } } ws wc
+      let (ws, e, o) := pollFlushE l.ws (wenv l)
+      let l := absorbEnv l ws e
       match o with
-      | .ok _ => (l, "ok")
+      | .ok _ => (l, "ok" ++ missing l e)
       | .pending => (l, "pending")
-      | .err e => ({ l with wfused := true }, "err " ++ showWErr e)
+      | .err x => ({ l with wfused := true }, "err " ++ showWErr x)
+      | .panic m => (l, "panic " ++ m)
+  | ["close"] =>
+    if l.wfused then (l, "fused")
+    else if l.wdone then (l, "closed")
+    else
+      let (ws, e, o) := pollCloseE l.ws (wenv l)
+      let l := absorbEnv l ws e
+      match o with
+      | .ok _ => ({ l with wdone := true }, "ok" ++ missing l e ++ (if e.closed then "" else " open"))
+      | .pending => (l, "pending")
+      | .err x => ({ l with wfused := true }, "err " ++ showWErr x)
       | .panic m => (l, "panic " ++ m)
   | ["read", k] =>
     match k.toNat? with
@@ -191,7 +237,7 @@ def stepLive (l : Live) (ts : List String) : Live × String :=
       if k > 4194304 then (l, "bad-op")
       else
         let rs := l.rs
-        let rc := l.rc
+        let rc := { l.rc with closed := l.cclosed || (l.wclosed && wireEmpty l) }
         let l := { l with rs := { rs with buf := #[] }, rc := { rc with str := #[] } }
         let (rs, rc, o) := pollRead l.P (tw l.P) k rs rc
         let l := { l with rs := rs, rc := rc }
@@ -208,8 +254,17 @@ def stepLive (l : Live) (ts : List String) : Live × String :=
     | some k =>
       let (l, moved) := deliver l k
       (l, "ok " ++ toString moved)
-  | ["carrier", "clear"] => ({ l with wscript := [], rc := { l.rc with script := [] } }, "ok")
-  | ["carrier", "close"] => ({ l with rc := { l.rc with closed := true } }, "ok")
+  | ["carrier", "clear"] =>
+    ({ l with wscript := [], fscript := [], cscript := [], rc := { l.rc with script := [] } }, "ok")
+  | ["carrier", "close"] => ({ l with cclosed := true }, "ok")
+  | "carrier" :: "fscript" :: rest =>
+    match fhints? rest with
+    | some hs => ({ l with fscript := l.fscript ++ hs }, "ok")
+    | none => (l, "bad-op")
+  | "carrier" :: "cscript" :: rest =>
+    match fhints? rest with
+    | some hs => ({ l with cscript := l.cscript ++ hs }, "ok")
+    | none => (l, "bad-op")
   | "carrier" :: "rscript" :: rest =>
     match rhints? rest with
     | some hs => ({ l with rc := { l.rc with script := l.rc.script ++ hs } }, "ok")
